@@ -39,6 +39,7 @@ func c02Opts(thorough bool) opCaseOpts {
 }
 
 func checkC02(c *core.Ctx) {
+	defer specialC02(c)
 	defer sweepC02(c)
 	defer c02UnaryMagnitudes(c)
 	defer selfCases(c, true, "elementwise", "linalg", "move")
@@ -147,6 +148,13 @@ func c02Run(oc OpCase, in []*ref.T, mask int, wi int) core.Verdict {
 		}
 		if len(w.V)%2 == 1 {
 			w.V[len(w.V)-1] = 0
+		}
+	} else if wi == 6 {
+		// an upstream gradient that is zero in EVERY element: every tracked operand still gets a (zero) gradient of its own shape
+		p, root = withWeighting(p, root, 9)
+		w := p.Leaves[len(p.Leaves)-1]
+		for i := range w.V {
+			w.V[i] = 0
 		}
 	} else if wi >= 3 {
 		// further upstream gradients: a single non-zero entry (last position), all negative, zero "rows" (every other entry 0)
